@@ -137,6 +137,11 @@ macro_rules! tov_prim {
     )*};
 }
 tov_prim!(u8 u16 u32 u64 u128 usize i8 i16 i32 i64 i128 isize);
+impl ToV for bool {
+    fn v(&self) -> V {
+        V::I(BigInt::from(*self as u8))
+    }
+}
 impl<R: Round, const B: Word> ToV for FBig<R, B> {
     fn v(&self) -> V {
         float_v(self.repr(), self.precision())
@@ -173,6 +178,11 @@ impl<X: ToV, Y: ToV> ToV for (X, Y) {
 impl<X: ToV, Y: ToV, Z: ToV> ToV for (X, Y, Z) {
     fn v(&self) -> V {
         V::T(vec![self.0.v(), self.1.v(), self.2.v()])
+    }
+}
+impl<W: ToV, X: ToV, Y: ToV, Z: ToV> ToV for (W, X, Y, Z) {
+    fn v(&self) -> V {
+        V::T(vec![self.0.v(), self.1.v(), self.2.v(), self.3.v()])
     }
 }
 impl<X: ToV> ToV for Option<X> {
@@ -596,7 +606,71 @@ fn ibig_forms(c: &IntCase, _ctx: &Ctx) -> Out {
     v.push(("unsigned_abs ref", fv!((&a).unsigned_abs())));
     v.push(("a * a.sign()", fv!(a.clone() * a.sign())));
     agree(&mut out, "IBig abs", Ret, v);
+    nt_int_forms(&mut out, c);
     out
+}
+
+/// the num-traits trait forms (cargo feature) of the integer operations: each forwards to an
+/// operation that has other forms
+fn nt_int_forms(out: &mut Out, c: &IntCase) {
+    let (a, b) = (c.a.ibig(), c.b.ibig());
+    let (ua, ub) = (c.a.mag.ubig(), c.b.mag.ubig());
+    let bz = c.b.mag.is_zero();
+    let k = c.k as usize;
+    let mut v: Forms = Vec::new();
+    v.push(("pow(k)", fv!((a.pow(k), ua.pow(k)))));
+    v.push(("num_traits::Pow val", fv!((num_traits::Pow::pow(a.clone(), k), num_traits::Pow::pow(ua.clone(), k)))));
+    v.push(("num_traits::Pow ref", fv!((num_traits::Pow::pow(&a, k), num_traits::Pow::pow(&ua, k)))));
+    agree(out, "IBig / UBig pow (num-traits)", Ret, v);
+    let mut v: Forms = Vec::new();
+    v.push(("DivEuclid/RemEuclid ref.ref", fv!(((&a).div_euclid(&b), IBig::from((&a).rem_euclid(&b)), (&ua).div_euclid(&ub), (&ua).rem_euclid(&ub)))));
+    v.push(("num_traits::Euclid", fv!((num_traits::Euclid::div_euclid(&a, &b), num_traits::Euclid::rem_euclid(&a, &b), num_traits::Euclid::div_euclid(&ua, &ub), num_traits::Euclid::rem_euclid(&ua, &ub)))));
+    agree(out, "IBig / UBig div/rem Euclidean (num-traits)", if bz { Pan } else { Ret }, v);
+    let mut v: Forms = Vec::new();
+    v.push(("abs, signum, >0, <0", fv!((IBig::from(a.clone().unsigned_abs()), a.signum(), a > IBig::ZERO, a < IBig::ZERO))));
+    v.push(("num_traits::Signed", fv!((num_traits::Signed::abs(&a), num_traits::Signed::signum(&a), num_traits::Signed::is_positive(&a), num_traits::Signed::is_negative(&a)))));
+    agree(out, "IBig sign queries (num-traits)", Ret, v);
+    let mut v: Forms = Vec::new();
+    v.push(("is_zero, is_one, ZERO, ONE", fv!(((a.is_zero(), a.is_one(), IBig::ZERO, IBig::ONE), (ua.is_zero(), ua.is_one(), UBig::ZERO, UBig::ONE)))));
+    v.push((
+        "num_traits::Zero / One",
+        fv!((
+            (num_traits::Zero::is_zero(&a), num_traits::One::is_one(&a), <IBig as num_traits::Zero>::zero(), <IBig as num_traits::One>::one()),
+            (num_traits::Zero::is_zero(&ua), num_traits::One::is_one(&ua), <UBig as num_traits::Zero>::zero(), <UBig as num_traits::One>::one())
+        )),
+    ));
+    agree(out, "IBig / UBig zero / one (num-traits)", Ret, v);
+    // parsing: the text of a in some radix, sometimes with a digit that the radix does not have
+    let radix = 2 + (c.n as u32 * 7 + c.k as u32) % 35;
+    let mut text = a.in_radix(radix).to_string();
+    if c.n % 9 == 0 {
+        text.push(std::char::from_digit(radix.min(35), 36).unwrap_or('z'));
+    }
+    let utext = text.trim_start_matches('-').to_string();
+    let mut v: Forms = Vec::new();
+    v.push(("from_str_radix", fv!((IBig::from_str_radix(&text, radix).ok(), UBig::from_str_radix(&utext, radix).ok()))));
+    v.push(("num_traits::Num::from_str_radix", fv!((<IBig as num_traits::Num>::from_str_radix(&text, radix).ok(), <UBig as num_traits::Num>::from_str_radix(&utext, radix).ok()))));
+    agree(out, "IBig / UBig from_str_radix (num-traits)", Ret, v);
+    // conversions to and from the narrow primitives (the wide ones and the floats are judged in C06)
+    let mut v: Forms = Vec::new();
+    v.push(("TryFrom", fv!((i8::try_from(&a).ok(), u8::try_from(&a).ok(), i16::try_from(&a).ok(), u32::try_from(&a).ok()))));
+    v.push(("num_traits::ToPrimitive", fv!((num_traits::ToPrimitive::to_i8(&a), num_traits::ToPrimitive::to_u8(&a), num_traits::ToPrimitive::to_i16(&a), num_traits::ToPrimitive::to_u32(&a)))));
+    agree(out, "IBig to narrow primitives (num-traits)", Ret, v);
+    let mut v: Forms = Vec::new();
+    v.push(("TryFrom", fv!((isize::try_from(&ua).ok(), usize::try_from(&ua).ok(), i32::try_from(&ua).ok(), u16::try_from(&ua).ok()))));
+    v.push(("num_traits::ToPrimitive", fv!((num_traits::ToPrimitive::to_isize(&ua), num_traits::ToPrimitive::to_usize(&ua), num_traits::ToPrimitive::to_i32(&ua), num_traits::ToPrimitive::to_u16(&ua)))));
+    agree(out, "UBig to narrow primitives (num-traits)", Ret, v);
+    let p = (c.a.mag.0.first().copied().unwrap_or(0) as i64).wrapping_mul(if c.a.neg { -1 } else { 1 });
+    let mut v: Forms = Vec::new();
+    v.push(("From / TryFrom", fv!((IBig::from(p), IBig::from(p as i8), UBig::try_from(p).ok(), UBig::try_from(p as i16).ok()))));
+    v.push(("num_traits::FromPrimitive", fv!((<IBig as num_traits::FromPrimitive>::from_i64(p), <IBig as num_traits::FromPrimitive>::from_i8(p as i8), <UBig as num_traits::FromPrimitive>::from_i64(p), <UBig as num_traits::FromPrimitive>::from_i16(p as i16)))));
+    agree(out, "IBig / UBig from primitives (num-traits)", Ret, v);
+    let f = f64::from_bits(c.a.mag.0.first().copied().unwrap_or(0));
+    let g = (p as f64) * if c.k % 2 == 0 { 1.0 } else { 0.5 };
+    let mut v: Forms = Vec::new();
+    v.push(("TryFrom<f64/f32>", fv!((IBig::try_from(f).ok(), IBig::try_from(g).ok(), UBig::try_from(g).ok(), IBig::try_from(g as f32).ok()))));
+    v.push(("num_traits::FromPrimitive", fv!((<IBig as num_traits::FromPrimitive>::from_f64(f), <IBig as num_traits::FromPrimitive>::from_f64(g), <UBig as num_traits::FromPrimitive>::from_f64(g), <IBig as num_traits::FromPrimitive>::from_f32(g as f32)))));
+    agree(out, "IBig / UBig from floats (num-traits)", Ret, v);
 }
 
 fn mixed_forms(c: &IntCase, _ctx: &Ctx) -> Out {
@@ -1180,6 +1254,66 @@ fn float_forms<R: ModeTag, const B: Word>(c: &FlCase, ctx: &Ctx) -> Out {
     v.push(("abs val", fv!(a.clone().abs())));
     v.push(("a * a.sign()", fv!(a.clone() * a.sign())));
     agree(&mut out, "FBig abs", Ret, v);
+    // the num-traits trait forms (cargo feature) of the float operations
+    {
+        let n = IBig::from(c.n % 7);
+        let mut v: Forms = Vec::new();
+        v.push(("powi val", fv!(a.powi(n.clone()))));
+        v.push(("num_traits::Pow<IBig> val", fv!(num_traits::Pow::pow(a.clone(), n.clone()))));
+        v.push(("num_traits::Pow<IBig> ref", fv!(num_traits::Pow::pow(&a, n.clone()))));
+        v.push(("Context::powi", fv!(cxa.powi(a.repr(), n.clone()))));
+        agree(&mut out, "FBig powi (num-traits)", Any, v);
+        if c.a.exp.abs() <= 40 && c.pa <= 60 {
+            // a small exponent of either sign with a fraction digit
+            let y: FBig<R, B> = FBig::from_parts(IBig::from((c.p % 41) as i64 - 20), -1);
+            let x = a.clone().abs();
+            let mut v: Forms = Vec::new();
+            v.push(("powf ref", fv!(x.powf(&y))));
+            v.push(("num_traits::Pow<&FBig> val", fv!(num_traits::Pow::pow(x.clone(), &y))));
+            v.push(("num_traits::Pow<&FBig> ref", fv!(num_traits::Pow::pow(&x, &y))));
+            agree(&mut out, "FBig powf (num-traits)", Any, v);
+        }
+        let mut v: Forms = Vec::new();
+        v.push(("DivEuclid/RemEuclid ref.ref (quotient as a float)", fv!((FBig::<R, B>::from((&a).div_euclid(&b)), (&a).rem_euclid(&b)))));
+        v.push(("num_traits::Euclid", fv!((num_traits::Euclid::div_euclid(&a, &b), num_traits::Euclid::rem_euclid(&a, &b)))));
+        agree(&mut out, "FBig div/rem Euclidean (num-traits)", if bz { Pan } else { Any }, v);
+        let mut v: Forms = Vec::new();
+        v.push(("abs, signum, >0, <0", fv!((a.clone().abs(), a.signum(), a > FBig::<R, B>::ZERO, a < FBig::<R, B>::ZERO))));
+        v.push(("num_traits::Signed", fv!((num_traits::Signed::abs(&a), num_traits::Signed::signum(&a), num_traits::Signed::is_positive(&a), num_traits::Signed::is_negative(&a)))));
+        agree(&mut out, "FBig sign queries (num-traits)", Ret, v);
+        let mut v: Forms = Vec::new();
+        v.push(("== ZERO, == ONE, ZERO, ONE", fv!((a.repr().is_zero(), a.repr().is_one(), FBig::<R, B>::ZERO, FBig::<R, B>::ONE))));
+        v.push(("num_traits::Zero / One", fv!((num_traits::Zero::is_zero(&a), num_traits::One::is_one(&a), <FBig<R, B> as num_traits::Zero>::zero(), <FBig<R, B> as num_traits::One>::one()))));
+        agree(&mut out, "FBig zero / one (num-traits)", Ret, v);
+        let text = format!("{}", a);
+        let mut v: Forms = Vec::new();
+        v.push(("FromStr", fv!(<FBig<R, B> as std::str::FromStr>::from_str(&text).ok())));
+        v.push(("num_traits::Num::from_str_radix(text, B)", fv!(<FBig<R, B> as num_traits::Num>::from_str_radix(&text, B as u32).ok())));
+        agree(&mut out, "FBig from_str (num-traits)", Ret, v);
+        let mut v: Forms = Vec::new();
+        v.push(("to_f32/to_f64", fv!((a.to_f32().value().to_bits(), a.to_f64().value().to_bits()))));
+        v.push(("num_traits::ToPrimitive", fv!((num_traits::ToPrimitive::to_f32(&a).map(f32::to_bits), num_traits::ToPrimitive::to_f64(&a).map(f64::to_bits)))));
+        agree(&mut out, "FBig to floats (num-traits)", Any, v);
+        if c.a.exp.abs() <= 400 {
+            let mut v: Forms = Vec::new();
+            v.push(("to_int then TryFrom", fv!((i64::try_from(a.to_int().value()).ok(), u64::try_from(a.to_int().value()).ok(), i8::try_from(a.to_int().value()).ok(), u128::try_from(a.to_int().value()).ok()))));
+            v.push(("num_traits::ToPrimitive", fv!((num_traits::ToPrimitive::to_i64(&a), num_traits::ToPrimitive::to_u64(&a), num_traits::ToPrimitive::to_i8(&a), num_traits::ToPrimitive::to_u128(&a)))));
+            agree(&mut out, "FBig to primitive integers (num-traits)", Ret, v);
+        }
+        let pi = c.p as i64;
+        let mut v: Forms = Vec::new();
+        v.push(("From", fv!((FBig::<R, B>::from(pi), FBig::<R, B>::from(pi as u64), FBig::<R, B>::from(pi as i8), FBig::<R, B>::from(c.p as u128)))));
+        v.push((
+            "num_traits::FromPrimitive",
+            fv!((
+                <FBig<R, B> as num_traits::FromPrimitive>::from_i64(pi),
+                <FBig<R, B> as num_traits::FromPrimitive>::from_u64(pi as u64),
+                <FBig<R, B> as num_traits::FromPrimitive>::from_i8(pi as i8),
+                <FBig<R, B> as num_traits::FromPrimitive>::from_u128(c.p as u128)
+            )),
+        ));
+        agree(&mut out, "FBig from primitive integers (num-traits)", Ret, v);
+    }
     // the sign operations are defined on the infinities as well (the sign lives in the exponent there)
     {
         let inf: FBig<R, B> = if c.sneg { FBig::NEG_INFINITY } else { FBig::INFINITY };
@@ -1402,6 +1536,47 @@ macro_rules! rat_type_forms {
         v.push(("inv ref", fv!((&a).inv())));
         v.push(("ONE / a", fv!($T::ONE / &a)));
         agree(&mut $out, concat!($tn, " inv"), if az { Pan } else { Ret }, v);
+        // the num-traits trait forms (cargo feature) of the same operations
+        {
+            let k = $c.k as usize;
+            let mut v: Forms = Vec::new();
+            v.push(("pow(k)", fv!(a.pow(k))));
+            v.push(("num_traits::Pow val", fv!(num_traits::Pow::pow(a.clone(), k))));
+            v.push(("num_traits::Pow ref", fv!(num_traits::Pow::pow(&a, k))));
+            agree(&mut $out, concat!($tn, " pow (num-traits)"), Ret, v);
+            let mut v: Forms = Vec::new();
+            v.push(("DivEuclid/RemEuclid ref.ref (quotient as a rational)", fv!(($T::from((&a).div_euclid(&b)), (&a).rem_euclid(&b)))));
+            v.push(("num_traits::Euclid", fv!((num_traits::Euclid::div_euclid(&a, &b), num_traits::Euclid::rem_euclid(&a, &b)))));
+            agree(&mut $out, concat!($tn, " div/rem Euclidean (num-traits)"), if bz { Pan } else { Ret }, v);
+            let mut v: Forms = Vec::new();
+            v.push(("abs, signum, >0, <0", fv!((a.clone().abs(), a.signum(), a > $T::ZERO, a < $T::ZERO))));
+            v.push(("num_traits::Signed", fv!((num_traits::Signed::abs(&a), num_traits::Signed::signum(&a), num_traits::Signed::is_positive(&a), num_traits::Signed::is_negative(&a)))));
+            agree(&mut $out, concat!($tn, " sign queries (num-traits)"), Ret, v);
+            let mut v: Forms = Vec::new();
+            v.push(("is_zero, is_one, ZERO, ONE", fv!((a.is_zero(), a.is_one(), $T::ZERO, $T::ONE))));
+            v.push(("num_traits::Zero / One", fv!((num_traits::Zero::is_zero(&a), num_traits::One::is_one(&a), <$T as num_traits::Zero>::zero(), <$T as num_traits::One>::one()))));
+            agree(&mut $out, concat!($tn, " zero / one (num-traits)"), Ret, v);
+            let radix = 2 + ($c.k as u32 * 7 + $c.i.mag.0.first().copied().unwrap_or(0) as u32 % 5) % 35;
+            let text = format!("{}/{}", a.numerator().in_radix(radix), a.denominator().in_radix(radix));
+            let mut v: Forms = Vec::new();
+            v.push(("from_str_radix", fv!($T::from_str_radix(&text, radix).ok())));
+            v.push(("num_traits::Num::from_str_radix", fv!(<$T as num_traits::Num>::from_str_radix(&text, radix).ok())));
+            v.push(("the value printed", fv!(Some(a.clone()))));
+            agree(&mut $out, concat!($tn, " from_str_radix (num-traits)"), Ret, v);
+            let mut v: Forms = Vec::new();
+            v.push(("to_int then TryFrom", fv!((i64::try_from(a.to_int().value()).ok(), u64::try_from(a.to_int().value()).ok(), i8::try_from(a.to_int().value()).ok(), u128::try_from(a.to_int().value()).ok()))));
+            v.push(("num_traits::ToPrimitive", fv!((num_traits::ToPrimitive::to_i64(&a), num_traits::ToPrimitive::to_u64(&a), num_traits::ToPrimitive::to_i8(&a), num_traits::ToPrimitive::to_u128(&a)))));
+            agree(&mut $out, concat!($tn, " to primitive integers (num-traits)"), Ret, v);
+            let mut v: Forms = Vec::new();
+            v.push(("to_f32/to_f64", fv!((a.to_f32().value().to_bits(), a.to_f64().value().to_bits()))));
+            v.push(("num_traits::ToPrimitive", fv!((num_traits::ToPrimitive::to_f32(&a).map(f32::to_bits), num_traits::ToPrimitive::to_f64(&a).map(f64::to_bits)))));
+            agree(&mut $out, concat!($tn, " to floats (num-traits)"), Ret, v);
+            let pi = $c.i.mag.0.first().copied().unwrap_or(0) as i64;
+            let mut v: Forms = Vec::new();
+            v.push(("From", fv!(($T::from(pi), $T::from(pi as u64), $T::from(pi as i8), $T::from(pi as u128)))));
+            v.push(("num_traits::FromPrimitive", fv!((<$T as num_traits::FromPrimitive>::from_i64(pi), <$T as num_traits::FromPrimitive>::from_u64(pi as u64), <$T as num_traits::FromPrimitive>::from_i8(pi as i8), <$T as num_traits::FromPrimitive>::from_u128(pi as u128)))));
+            agree(&mut $out, concat!($tn, " from primitive integers (num-traits)"), Ret, v);
+        }
         [r_add, r_sub, r_mul, r_div, r_rem, r_euc]
     }};
 }
@@ -1974,7 +2149,7 @@ fn census(ck: &mut Check) {
 fn main() {
     let mut ck = Check::new(
         "C15",
-        "metamorphic call-form matrix: for each operation every available call form (val/ref on either side, op=, primitive or other big type on either side incl. the converted-operand form, trait-method forms div_rem / div_rem_assign / *Euclid / gcd / gcd_ext, sqr/cubic/pow vs products, Neg/Not/Abs val/ref/Sign forms, shifts incl. FBig signed shifts, Context methods vs FBig operators at equal precision and mode, Sum/Product vs folds) is run under catch on the same operands; all forms panic or all return one model value (raw words -> num-bigint; floats: canonical significand/exponent + precision; rationals: reduced numerator/denominator). Operands: structured integers biased to 0-4 words (inline/heap boundary) with some up to 70 words, derived pairs (equal, a±1, multiples), zero divisors; floats in bases 2 and 10, modes Zero and HalfAway, equal / different / unlimited precision, exponent gaps relative to the precision; rationals with shared denominators; ring elements of 1-, 2- and multi-word moduli. Clone: clone and clone_from onto inline / smaller / equal-length / larger / much larger previous values, then either side is mutated or dropped and the other compared with its model. Non-trivial: operands not both <= 1 word (prim: both non-zero); distinct by case digest.",
+        "metamorphic call-form matrix: for each operation every available call form (val/ref on either side, op=, primitive or other big type on either side incl. the converted-operand form, trait-method forms div_rem / div_rem_assign / *Euclid / gcd / gcd_ext, the num-traits trait forms (Pow, Euclid, Signed, Zero/One, Num::from_str_radix, ToPrimitive, FromPrimitive) of UBig / IBig / FBig / RBig / Relaxed against the operations they forward to, sqr/cubic/pow vs products, Neg/Not/Abs val/ref/Sign forms, shifts incl. FBig signed shifts, Context methods vs FBig operators at equal precision and mode, Sum/Product vs folds) is run under catch on the same operands; all forms panic or all return one model value (raw words -> num-bigint; floats: canonical significand/exponent + precision; rationals: reduced numerator/denominator). Operands: structured integers biased to 0-4 words (inline/heap boundary) with some up to 70 words, derived pairs (equal, a±1, multiples), zero divisors; floats in bases 2 and 10, modes Zero and HalfAway, equal / different / unlimited precision, exponent gaps relative to the precision; rationals with shared denominators; ring elements of 1-, 2- and multi-word moduli. Clone: clone and clone_from onto inline / smaller / equal-length / larger / much larger previous values, then either side is mutated or dropped and the other compared with its model. Non-trivial: operands not both <= 1 word (prim: both non-zero); distinct by case digest.",
     );
     ck.assume("the value of a form is read through as_words/as_sign_words, Repr::significand/exponent, numerator/denominator, Reduced::residue/modulus");
     if !ck.is_replay() {
